@@ -61,6 +61,21 @@ def lookupV : P String := do
   let idx := List.range n
   pure s!"{k} {flist (idx.map (fillPrefix n 0.0 k (fn xa.toArray)))} {flist (idx.map (fillPrefix n 0.0 k (fn xb.toArray)))}"
 
+/-- ic.dispatch Ts gs (the `atleast_1d` lists) → `E` (ValueError of the length check) or the calls of
+`_interfacialComposition` in order: k, then k × (T, GE values) -/
+def dispatchV : P String := do
+  let ts ← flts; let gs ← flts
+  match processTG ts gs with
+  | none => pure "E"
+  | some (ts', gs') =>
+    let cs := icCalls allEqual ts' gs'
+    pure (" ".intercalate (toString cs.length :: cs.map (fun c => s!"{fout c.1} {flist c.2}")))
+
+/-- gen.extra ast GE N → extraGM (energy per mole of atoms), extraG (energy per formula unit) -/
+def extraV : P String := do
+  let a ← flt; let ge ← flt; let n ← flt
+  pure (flist [extraGM a ge, extraG a ge n])
+
 def handle (verb : String) : Option (P String) :=
   match verb with
   | "gen.gt" => some gt
@@ -71,6 +86,8 @@ def handle (verb : String) : Option (P String) :=
   | "ic.rcrit" => some rcrit
   | "ic.scan" => some scanV
   | "ic.lookup" => some lookupV
+  | "ic.dispatch" => some dispatchV
+  | "gen.extra" => some extraV
   | _ => none
 
 end KawinV.Drv.C12
